@@ -189,6 +189,10 @@ def pyfftw_call(array_in, array_out, direction='forward', axes=None,
         plan_arr_in = array_in
         flags = [_flag_odl_to_pyfftw(planning_effort)]
 
+    # The planner also overwrites the output array, which is the input array
+    # for in-place transforms
+    plan_arr_out = plan_arr_in if array_out is array_in else array_out
+
     if fftw_plan_in is None:
         if threads is None:
             if plan_arr_in.size <= 4096:  # Trade-off wrt threading overhead
@@ -197,7 +201,8 @@ def pyfftw_call(array_in, array_out, direction='forward', axes=None,
                 threads = cpu_count()
 
         fftw_plan = pyfftw.FFTW(
-            plan_arr_in, array_out, direction=_flag_odl_to_pyfftw(direction),
+            plan_arr_in, plan_arr_out,
+            direction=_flag_odl_to_pyfftw(direction),
             flags=flags, planning_timelimit=planning_timelimit,
             threads=threads, axes=axes)
     else:
